@@ -11,8 +11,8 @@ from ..model_ac import ModelAC
 ID = "C02"
 LEVEL = "exploration"
 SHARDS = {"quick": 8, "thorough": 16}
-RULE = ("cases: (a) enc: msmart _Packet.encode(id, frame) decoded by the independent V2 decoder; (b) dec: packets built by "
-        "the independent encoder (varying message id, timestamp, magic, reserved bytes) decoded by _Packet.decode; (c) send: "
+RULE = ("cases: (a) enc: msmart _Packet.encode(id, frame) decoded by the independent V2 decoder - on this host and as the same source behaves on a big-endian host (private copy of msmart/lan.py with a struct module whose native order is big-endian); (b) dec: packets built by "
+        "the independent encoder (varying message id, timestamp, magic, reserved bytes) decoded by _Packet.decode, handed over as bytes and as bytearray (send: the transport may deliver bytearray); (c) send: "
         "LAN.send on a V2 connection against the model device, optionally through the public Device object, with the device stamping a different id on its replies, with further exchanges on the same object, with the first transmissions lost (retransmissions must decode too) and after another LAN object with a different id sent the same frame; (e) frames that are themselves packets (nested packet, discovery probe, 5A5A + own length) through enc and send; (d) long: 70 000 (quick) / 300 000 (thorough) packets encoded consecutively in one process, each decoded by the independent decoder. Sweep of all frame lengths 0..255 x boundary ids, plus "
         "Hypothesis-generated frames/ids/clock values, with the process's monotonic clock up to years past import time. Non-trivial: len(frame)>=1 and (len%16 in {0,15} or id>=2^32 or "
         "frame contains 5A5A). Distinct by (kind, frame, id).")
@@ -23,6 +23,51 @@ SWEEP_IDS_QUICK = [0, 0x0123456789AB]
 SWEEP_IDS_THOROUGH = [0, 1, 0xFF, 0x100, 0xFFFF, 0x10000, 0xFFFFFF, 0x1000000, 0xFFFFFFFF, 0x100000000, 0xFFFFFFFFFF,
                       0x10000000000, 0xFFFFFFFFFFFF, 0x1000000000000, 0xFFFFFFFFFFFFFF, 0x100000000000000,
                       0xFFFFFFFFFFFFFFFF, 0xFFFFFFFFFFFFFFFE, 0x8000000000000000, 0x0123456789ABCDEF, 0x5A5A5A5A5A5A5A5A]
+
+
+_BE_LAN = None
+
+
+def _big_endian_lan():
+    """msmart/lan.py of the tree under test, executed once more as a private module whose `struct` treats native byte order
+    (formats starting with '=', '@' or no prefix) as big-endian: what the same code does on a big-endian host."""
+    global _BE_LAN
+    if _BE_LAN is not None:
+        return _BE_LAN
+    import importlib.util
+    import os
+    import struct as real
+    import sys
+    import types
+    import msmart
+
+    def fix(fmt):
+        if isinstance(fmt, bytes):
+            fmt = fmt.decode()
+        if fmt[:1] in "<>!":
+            return fmt
+        return ">" + fmt[1:] if fmt[:1] in "=@" else ">" + fmt
+
+    shim = types.ModuleType("struct")
+    shim.error = real.error
+    shim.pack = lambda fmt, *a: real.pack(fix(fmt), *a)
+    shim.unpack = lambda fmt, b: real.unpack(fix(fmt), b)
+    shim.pack_into = lambda fmt, buf, off, *a: real.pack_into(fix(fmt), buf, off, *a)
+    shim.unpack_from = lambda fmt, buf, offset=0: real.unpack_from(fix(fmt), buf, offset)
+    shim.iter_unpack = lambda fmt, b: real.iter_unpack(fix(fmt), b)
+    shim.calcsize = lambda fmt: real.calcsize(fix(fmt))
+    shim.Struct = lambda fmt: real.Struct(fix(fmt))
+    spec = importlib.util.spec_from_file_location("msmart._vf_lan_big_endian", os.path.join(os.path.dirname(msmart.__file__), "lan.py"))
+    mod = importlib.util.module_from_spec(spec)
+    saved = sys.modules["struct"]
+    sys.modules["struct"] = shim
+    try:
+        spec.loader.exec_module(mod)
+    finally:
+        sys.modules["struct"] = saved
+    mod.datetime = vloop.VDatetime
+    _BE_LAN = mod
+    return mod
 
 
 def _nontrivial(frame: bytes, dev_id: int) -> bool:
@@ -43,10 +88,15 @@ def check_case(case: dict):
             # the process has been running for a long time (monotonic clock and time.time far from their values at import)
             _time.monotonic = lambda: real_mono() + up
             _time.time = lambda: real_time() + up
+        enc = _Packet.encode
+        if case.get("host") == "big-endian":
+            # the same source on a big-endian host (MIPS router, s390x): a private copy of msmart.lan is loaded with a struct
+            # module whose native byte order is big-endian (explicit <, >, ! formats are untouched)
+            enc = _big_endian_lan()._Packet.encode
         try:
-            pkt = _Packet.encode(dev_id, frame)
+            pkt = enc(dev_id, frame)
         except Exception as e:
-            return (f"enc/raises/{type(e).__name__}", f"_Packet.encode raised {e!r} (process uptime {case.get('uptime_days', 0)} days)")
+            return (f"enc/raises/{type(e).__name__}", f"_Packet.encode raised {e!r} (process uptime {case.get('uptime_days', 0)} days, host {case.get('host', 'native')})")
         finally:
             vloop.CURRENT = None
             _time.monotonic, _time.time = real_mono, real_time
@@ -83,17 +133,21 @@ def check_case(case: dict):
     if kind == "dec":
         pkt = rc.v2_encode(dev_id, frame, timestamp=bytes.fromhex(case["tsb"]), message_id=bytes.fromhex(case["mid"]),
                            magic=bytes.fromhex(case["magic"]), reserved=bytes.fromhex(case["res"]))
-        try:
-            got = _Packet.decode(pkt)
-        except Exception as e:
-            return (f"dec/raises/{type(e).__name__}", f"_Packet.decode raised {e!r} on reference packet {pkt.hex()}")
-        if got != frame:
-            return ("dec/frame-differs", f"decoded {bytes(got).hex()} != {frame.hex()}")
+        # the buffer object the transport hands over: bytes per the asyncio contract; some event loops deliver a bytearray
+        for buf in (pkt, bytearray(pkt)):
+            try:
+                got = _Packet.decode(buf)
+            except Exception as e:
+                return (f"dec/raises/{type(e).__name__}", f"_Packet.decode raised {e!r} on reference packet {pkt.hex()} handed over as {type(buf).__name__}")
+            if got != frame:
+                return ("dec/frame-differs", f"decoded {bytes(got).hex()} != {frame.hex()} (buffer type {type(buf).__name__})")
         return None
     if kind == "send":
         # full LAN.send on a V2 connection: the model answers with `reply` frames (arbitrary bytes as frames)
         replies = [bytes.fromhex(x) for x in case["replies"]]
         net = vloop.Net()
+        if case.get("deliver") == "bytearray":
+            net.deliver_type = bytearray          # this event loop hands data_received() a bytearray
         out = {}
 
         async def main(loop):
@@ -169,7 +223,7 @@ def replay(ctx, case):
 def _run_one(ctx, case):
     frame = bytes.fromhex(case["frame"])
     nt = _nontrivial(frame, case["id"])
-    ctx.case(hash((case["kind"], frame, case["id"])), nt, cls=case["kind"])
+    ctx.case(hash((case["kind"], frame, case["id"], case.get("host"), case.get("deliver"))), nt, cls=case["kind"])
     pad = 16 - len(frame) % 16
     ctx.label(f"pad={pad}")
     ctx.sample(case["kind"] + ("/nt" if nt else ""), case)
@@ -188,8 +242,9 @@ def run(ctx) -> None:
             frame = bytes((L * 7 + i * 13 + j) & 0xFF for i in range(L))
             if L >= 4 and j % 2 == 1:
                 frame = frame[:1] + b"\x5a\x5a" + frame[3:]
-            for kind in ("enc", "dec"):
-                case = {"kind": kind, "frame": frame.hex(), "id": dev_id, "ts": 86400.0 * (L + 1) * 9.37 + j, "uptime_days": [0, 50, 400, 4000][L % 4],
+            for kind in ("enc", "dec", "enc-be"):
+                case = {"kind": kind.split("-")[0], "frame": frame.hex(), "id": dev_id, "ts": 86400.0 * (L + 1) * 9.37 + j, "uptime_days": [0, 50, 400, 4000][L % 4],
+                        "host": "big-endian" if kind == "enc-be" else "native",
                         "tsb": bytes([L & 0xFF, j, 3, 4, 5, 6, 24, 20]).hex(), "mid": bytes([j, L & 0xFF, 0, 1]).hex(),
                         "magic": ["2000", "2080", "7a80", "0000"][(L + j) % 4], "res": bytes([(L + k) & 0xFF for k in range(12)]).hex()}
                 ctx.check(case, lambda c: _run_one(ctx, c))
@@ -216,6 +271,8 @@ def run(ctx) -> None:
                     case = {"kind": kind, "frame": fr.hex(), "id": dev_id, "ts": 5.0e6}
                     if kind == "send":
                         case["replies"] = [fr.hex()]
+                        if k % 4 == 0:
+                            case["deliver"] = "bytearray"
                     ctx.check(case, lambda c: _run_one(ctx, c))
     ctx.sweep("frames that look like packets x ids x {enc, send}", k, True)
 
@@ -231,7 +288,7 @@ def run(ctx) -> None:
         "kind": st.just("enc"), "frame": hexb(gens.frames_bytes(255)), "id": gens.device_ids(64),
         # 1970 .. 9999 relative to the 2024 epoch, with microseconds
         "ts": st.floats(min_value=-1.7e9, max_value=2.5e11, allow_nan=False, allow_infinity=False)},
-        optional={"uptime_days": st.sampled_from([0, 1, 25, 49.8, 50, 400, 4000])})
+        optional={"uptime_days": st.sampled_from([0, 1, 25, 49.8, 50, 400, 4000]), "host": st.sampled_from(["native", "big-endian"])})
     dec_cases = st.fixed_dictionaries({
         "kind": st.just("dec"), "frame": hexb(gens.frames_bytes(255)), "id": gens.device_ids(64),
         "tsb": hexb(st.binary(min_size=8, max_size=8)), "mid": hexb(st.binary(min_size=4, max_size=4)),
@@ -240,7 +297,7 @@ def run(ctx) -> None:
         "kind": st.just("send"), "frame": hexb(gens.frames_bytes(255)), "id": gens.device_ids(64),
         "replies": st.lists(hexb(gens.frames_bytes(120)), min_size=0, max_size=3),
         "ts": st.floats(min_value=0, max_value=1e9, allow_nan=False)}, optional={"drop_first": st.integers(0, 2), "other_id": gens.device_ids(64), "api": st.sampled_from(["lan", "device"]),
-                  "reply_id": gens.device_ids(64), "more_sends": st.integers(0, 2)}).map(
+                  "reply_id": gens.device_ids(64), "more_sends": st.integers(0, 2), "deliver": st.sampled_from(["bytes", "bytearray"])}).map(
         lambda c: c if c["replies"] else {k: v for k, v in c.items() if k != "more_sends"})
 
     def runner(case):
